@@ -443,6 +443,8 @@ pub struct TxOut {
     pub fault_armed: Option<u32>,
     pub fault_fired: bool,
     pub msg_tree: Vec<String>,
+    /// engine path of the transaction, classified from its observable effects when the step is recorded (mon/util.rs)
+    pub path: Option<String>,
 }
 
 impl TxOut {
@@ -960,6 +962,7 @@ impl World {
                     fault_armed: armed,
                     fault_fired: fired,
                     msg_tree: tree,
+                    path: None,
                 }
             }
             Ok(Err(e)) => TxOut {
@@ -971,6 +974,7 @@ impl World {
                 fault_armed: armed,
                 fault_fired: fired,
                 msg_tree: tree,
+                path: None,
             },
             Err(p) => {
                 let text = if let Some(s) = p.downcast_ref::<String>() {
@@ -989,6 +993,7 @@ impl World {
                     fault_armed: armed,
                     fault_fired: fired,
                     msg_tree: tree,
+                    path: None,
                 }
             }
         }
@@ -1047,6 +1052,7 @@ impl World {
                     fault_armed: armed,
                     fault_fired: false,
                     msg_tree: vec![],
+                    path: None,
                 }
             }
         };
@@ -1108,6 +1114,7 @@ impl World {
                     fault_armed: None,
                     fault_fired: false,
                     msg_tree: vec![],
+                    path: None,
                 };
             }
             self.exec(owner, &c, &msg, 0, None)
